@@ -1,8 +1,8 @@
 /-
 C15  Malicious-mode OT extension detects a deviating receiver.
 
-Property theorems only; models in Model/{Clmul,Kos,KosSet,Iknp}.lean, helper
-lemmas in Proofs/{Clmul,Kos,KosSet,Iknp}.lean.
+Property theorems only; models in Model/{Clmul,Kos,KosSet,KosBuf,KosMix,Iknp,IknpBuf}.lean, helper
+lemmas in Proofs/{Clmul,Kos,KosSet,KosBuf,KosMix,Iknp,IknpBuf}.lean.
 
 Quantification.  Every family of PRG streams (`R0 R1 SS : column → position →
 byte`, hence every AES key), every challenge generator `X : seed → index →
